@@ -629,12 +629,27 @@ func (w *world) live() string {
 	if _, err := a.CreateTopic(ctx, metadata.TopicSpec{Name: "live-topic", NumPartitions: 2, ReplicationFactor: 1}); err != nil {
 		return "live create-" + errName(err)
 	}
-	deadline := time.Now().Add(15 * time.Second)
+	// b's watch goroutine registers asynchronously (NewEtcdStore does not wait for it) and the
+	// watch starts at "now": a write that lands before the registration is only seen with the
+	// next event.  That start-up window is not part of C21, so the probe keeps producing events
+	// (one more topic every 500 ms) until b has caught up; a watch path that never refreshes
+	// still fails.
+	deadline := time.Now().Add(30 * time.Second)
+	nextKick := time.Now().Add(500 * time.Millisecond)
+	kicks := 0
 	for time.Now().Before(deadline) {
 		m, err := b.Metadata(ctx, []string{"live-topic"})
 		if err == nil && len(m.Topics) == 1 && m.Topics[0].ErrorCode == 0 && len(m.Topics[0].Partitions) == 2 {
 			_ = a.DeleteTopic(ctx, "live-topic")
+			for i := 0; i < kicks; i++ {
+				_ = a.DeleteTopic(ctx, fmt.Sprintf("live-kick-%d", i))
+			}
 			return "live ok"
+		}
+		if time.Now().After(nextKick) {
+			_, _ = a.CreateTopic(ctx, metadata.TopicSpec{Name: fmt.Sprintf("live-kick-%d", kicks), NumPartitions: 1, ReplicationFactor: 1})
+			kicks++
+			nextKick = time.Now().Add(500 * time.Millisecond)
 		}
 		time.Sleep(20 * time.Millisecond)
 	}
